@@ -298,3 +298,185 @@ theorem findConflict_ff (s : Schema) (d : Document) :
               · rw [subOf_nil s b h] at hf2; simp at hf2
 
 end Gql
+
+namespace Gql
+open Gql.Spec
+
+theorem crossAny_congr {p q : AstAndDef → AstAndDef → Bool} {F1 F2 : List AstAndDef}
+    (h : ∀ x ∈ F1, ∀ y ∈ F2, p x y = q x y) : crossAny p F1 F2 = crossAny q F1 F2 := by
+  unfold crossAny
+  have inner : ∀ x ∈ F1, (F2.any fun y => keyOf x == keyOf y && p x y) = (F2.any fun y => keyOf x == keyOf y && q x y) := by
+    intro x hx
+    induction F2 with
+    | nil => rfl
+    | cons y ys ih =>
+      simp only [List.any_cons, h x hx y (by simp)]
+      rw [ih (fun x' hx' y' hy' => h x' hx' y' (by simp [hy']))]
+  clear h
+  induction F1 with
+  | nil => rfl
+  | cons x xs ih =>
+    simp only [List.any_cons, inner x (by simp)]
+    rw [ih (fun x' hx' => inner x' (by simp [hx']))]
+
+/-- beyond the nesting depth more fuel changes nothing -/
+theorem pcD_stable (s : Schema) : ∀ (k : Nat) (pe : Bool) (a b : AstAndDef), ffOf a → depOf a + 1 ≤ k →
+    pcD s (k + 1) pe a b = pcD s k pe a b
+  | 0, _, _, _, _, h => by omega
+  | k + 1, pe, a, b, ha, hk => by
+      show (pcFlat s pe a b || crossAny (pcD s (k + 1) (meOf pe a b)) (subOf s a) (subOf s b))
+        = (pcFlat s pe a b || crossAny (pcD s k (meOf pe a b)) (subOf s a) (subOf s b))
+      congr 1
+      apply crossAny_congr
+      intro x hx y _
+      obtain ⟨hd, hfx⟩ := mem_subOf s a x ha hx
+      exact pcD_stable s k _ x y hfx (by omega)
+
+theorem pcD_stable_le (s : Schema) (pe : Bool) (a b : AstAndDef) (ha : ffOf a) :
+    ∀ (k k' : Nat), depOf a + 1 ≤ k → k ≤ k' → pcD s k' pe a b = pcD s k pe a b := by
+  intro k k' hk hkk'
+  induction k' with
+  | zero => have : k = 0 := by omega
+            subst this; rfl
+  | succ m ih =>
+    by_cases hm : k ≤ m
+    · rw [pcD_stable s m pe a b ha (by omega)]; exact ih hm
+    · have : k = m + 1 := by omega
+      subst this; rfl
+
+/-- conflict between two fields of a spread-free document (any sufficient fuel) -/
+def PCb (s : Schema) (pe : Bool) (a b : AstAndDef) : Bool := pcD s (depOf a + 1) pe a b
+
+/-- the recursion equation, fuel-free -/
+theorem PCb_eq (s : Schema) (pe : Bool) (a b : AstAndDef) (ha : ffOf a) :
+    PCb s pe a b = (pcFlat s pe a b || crossAny (PCb s (meOf pe a b)) (subOf s a) (subOf s b)) := by
+  unfold PCb
+  rw [pcD]
+  congr 1
+  apply crossAny_congr
+  intro x hx y _
+  obtain ⟨hd, hfx⟩ := mem_subOf s a x ha hx
+  exact pcD_stable_le s _ x y hfx (depOf x + 1) (depOf a) (Nat.le_refl _) (by omega)
+
+/-- ordered pairs of a list, as `Pairwise` -/
+theorem orderedPairs_forall {α : Type} (R : α → α → Prop) : ∀ L : List α,
+    (∀ p ∈ orderedPairs L, R p.1 p.2) ↔ L.Pairwise R
+  | [] => by simp [orderedPairs]
+  | x :: xs => by
+      simp only [orderedPairs, List.mem_append, List.mem_map, List.pairwise_cons]
+      rw [← orderedPairs_forall R xs]
+      constructor
+      · intro h
+        exact ⟨fun y hy => h (x, y) (Or.inl ⟨y, hy, rfl⟩), fun p hp => h p (Or.inr hp)⟩
+      · rintro ⟨h1, h2⟩ p (⟨y, hy, rfl⟩ | hp)
+        · exact h1 y hy
+        · exact h2 p hp
+
+/-- `Pairwise` within every key class = `Pairwise` restricted to equal keys -/
+theorem pairwise_by_key (R : AstAndDef → AstAndDef → Prop) : ∀ F : List AstAndDef,
+    (∀ k, (F.filter fun a => keyOf a == k).Pairwise R) ↔ F.Pairwise (fun a b => keyOf a = keyOf b → R a b)
+  | [] => by simp
+  | a :: F => by
+      simp only [List.pairwise_cons, ← pairwise_by_key R F]
+      constructor
+      · intro h
+        refine ⟨fun b hb hk => ?_, fun k => ?_⟩
+        · have := h (keyOf a)
+          simp only [List.filter_cons, beq_self_eq_true, if_true, List.pairwise_cons] at this
+          exact this.1 b (List.mem_filter.2 ⟨hb, by simp [hk]⟩)
+        · have := h k
+          simp only [List.filter_cons] at this
+          split at this
+          · exact (List.pairwise_cons.1 this).2
+          · exact this
+      · rintro ⟨h1, h2⟩ k
+        simp only [List.filter_cons]
+        split
+        · rename_i hk
+          rw [List.pairwise_cons]
+          refine ⟨fun b hb => ?_, h2 k⟩
+          obtain ⟨hb1, hb2⟩ := List.mem_filter.1 hb
+          exact h1 b hb1 (by rw [beq_iff_eq] at hk hb2; rw [hk, hb2])
+        · exact h2 k
+
+/-- **one selection set** of a spread-free document: `collect_conflicts_within` leaves the state
+    alone and reports nothing iff no two same-key fields conflict -/
+theorem conflictsWithin_ff (s : Schema) (d : Document) (D n : Nat) (F : List AstAndDef) (st : MState)
+    (hF : ∀ a ∈ F, depOf a ≤ D ∧ ffOf a) (hn : 3 * D + 1 ≤ n) (hst : st.stuck = false) :
+    ∃ cs, conflictsWithin s d n (groupInto [] F) st = (cs, st) ∧
+      (cs = [] ↔ F.Pairwise (fun a b => keyOf a = keyOf b → PCb s false a b = false)) := by
+  unfold conflictsWithin
+  have hpair : ∀ (a b : AstAndDef), a ∈ F → b ∈ F → ∀ k,
+      (findConflict s d n k a b false st).2 = st ∧ ((findConflict s d n k a b false st).1.isSome = PCb s false a b) := by
+    intro a b ha hb k
+    obtain ⟨h1, h2⟩ := findConflict_ff s d D n k a b false st (hF a ha).1 hn (hF a ha).2 (hF b hb).2 hst
+    refine ⟨h1, ?_⟩
+    rw [h2]
+    exact pcD_stable_le s false a b (hF a ha).2 (depOf a + 1) (D + 1) (Nat.le_refl _) (by have := (hF a ha).1; omega)
+  -- one entry
+  have hentry : ∀ (kv : Name × List AstAndDef) (cs0 : List Conflict), kv ∈ groupInto [] F →
+      ∃ extra, (orderedPairs kv.2).foldl (fun (acc : MRes) p => pushConflict acc (findConflict s d n kv.1 p.1 p.2 false acc.2)) (cs0, st)
+          = (cs0 ++ extra, st) ∧
+        (extra = [] ↔ kv.2.Pairwise (fun a b => PCb s false a b = false)) := by
+    intro kv cs0 hkv
+    have hfs := mem_groupInto F kv.1 kv.2 hkv
+    have hin : ∀ a ∈ kv.2, a ∈ F := by intro a ha; rw [hfs] at ha; exact (List.mem_filter.1 ha).1
+    have hop : ∀ p ∈ orderedPairs kv.2, p.1 ∈ kv.2 ∧ p.2 ∈ kv.2 := by
+      have : ∀ (L : List AstAndDef) (p : AstAndDef × AstAndDef), p ∈ orderedPairs L → p.1 ∈ L ∧ p.2 ∈ L := by
+        intro L
+        induction L with
+        | nil => intro p hp; simp [orderedPairs] at hp
+        | cons x xs ih =>
+          intro p hp
+          simp only [orderedPairs, List.mem_append, List.mem_map] at hp
+          rcases hp with ⟨y, hy, rfl⟩ | hp
+          · exact ⟨by simp, by simp [hy]⟩
+          · obtain ⟨h1, h2⟩ := ih p hp; exact ⟨by simp [h1], by simp [h2]⟩
+      exact this kv.2
+    obtain ⟨extra, he, hiff⟩ := foldl_push (fun (p : AstAndDef × AstAndDef) st' => findConflict s d n kv.1 p.1 p.2 false st') st
+      (orderedPairs kv.2) cs0 (fun p hp => (hpair p.1 p.2 (hin _ (hop p hp).1) (hin _ (hop p hp).2) kv.1).1)
+    refine ⟨extra, he, ?_⟩
+    rw [hiff, ← orderedPairs_forall]
+    constructor
+    · intro h p hp
+      have := h p hp
+      rw [← (hpair p.1 p.2 (hin _ (hop p hp).1) (hin _ (hop p hp).2) kv.1).2, this]; rfl
+    · intro h p hp
+      have := h p hp
+      rw [← (hpair p.1 p.2 (hin _ (hop p hp).1) (hin _ (hop p hp).2) kv.1).2] at this
+      cases hx : (findConflict s d n kv.1 p.1 p.2 false st).1 with
+      | none => rfl
+      | some c => rw [hx] at this; simp at this
+  have hall : ∀ (L : List (Name × List AstAndDef)) (cs0 : List Conflict), (∀ kv ∈ L, kv ∈ groupInto [] F) →
+      ∃ extra, L.foldl (fun (acc : MRes) (kv : Name × List AstAndDef) =>
+          (orderedPairs kv.2).foldl (fun (acc : MRes) p => pushConflict acc (findConflict s d n kv.1 p.1 p.2 false acc.2)) acc) (cs0, st)
+          = (cs0 ++ extra, st) ∧
+        (extra = [] ↔ ∀ kv ∈ L, kv.2.Pairwise (fun a b => PCb s false a b = false)) := by
+    intro L
+    induction L with
+    | nil => intro cs0 _; exact ⟨[], by simp, by simp⟩
+    | cons kv L ih =>
+      intro cs0 hL
+      obtain ⟨e1, h1, i1⟩ := hentry kv cs0 (hL kv (by simp))
+      obtain ⟨e2, h2, i2⟩ := ih (cs0 ++ e1) (fun x hx => hL x (by simp [hx]))
+      refine ⟨e1 ++ e2, by simp only [List.foldl_cons, h1, h2, List.append_assoc], ?_⟩
+      simp only [List.append_eq_nil_iff, i1, i2, List.mem_cons, forall_eq_or_imp]
+  obtain ⟨extra, he, hiff⟩ := hall (groupInto [] F) [] (fun _ h => h)
+  refine ⟨extra, by simpa using he, ?_⟩
+  rw [hiff, ← pairwise_by_key]
+  constructor
+  · intro h k
+    by_cases hk : (F.filter fun a => keyOf a == k) = []
+    · rw [hk]; exact List.Pairwise.nil
+    · obtain ⟨a, ha⟩ := List.exists_mem_of_ne_nil _ hk
+      obtain ⟨haF, hak⟩ := List.mem_filter.1 ha
+      obtain ⟨fs, hfs⟩ := groupInto_covers F [] a haF
+      have hk' : keyOf a = k := by simpa using hak
+      have := h _ hfs
+      rw [mem_groupInto F _ fs hfs, hk'] at this
+      exact this
+  · intro h kv hkv
+    rw [mem_groupInto F kv.1 kv.2 hkv]
+    exact h kv.1
+
+end Gql
